@@ -121,7 +121,7 @@ Extended(a, b) ==
      col |-> [k \in KeySet(a) \cup KeySet(b) |->
                 (IF k \in KeySet(a) THEN a.col[k] ELSE [i \in 1..a.n |-> 0]) \o
                 (IF k \in KeySet(b) THEN b.col[k] ELSE [i \in 1..b.n |-> 0])]]
-AExtendN == On("extendn") /\ \E o \in LiveSlots : \E m \in 1..2 : \E d \in Dst :
+AExtendN == On("extendn") /\ \E o \in LiveSlots : \E m \in 0..2 : \E d \in Dst :      \* m = 0: a copy with nothing added, still a NEW object
     objs[o].n + m <= MaxN + 2 /\ d # o /\
     Do(Step("extendn", [o |-> o, m |-> m, dst |-> d], [ok |-> TRUE]), [objs EXCEPT ![d] = ExtendedN(objs[o], m)], syss)
 AExtend == On("extend") /\ \E o \in LiveSlots : \E p \in LiveSlots : \E d \in Dst :
@@ -179,7 +179,7 @@ ASysExtend == On("sysextend") /\ \E s \in LiveSys : \E d \in (1..2) \ {s} : \E o
         symbols == IF sym = <<"None">> THEN sy.symbols ELSE sym IN
     Do(Step("sysextend", [s |-> s, o |-> o, scale |-> scale, symbols |-> sym, dst |-> d], [ok |-> TRUE]), objs,
        [syss EXCEPT ![d] = SysOf(ext, symbols, sy.pbc)])
-ASysExtendN == On("sysextendn") /\ \E s \in LiveSys : \E d \in (1..2) \ {s} : \E m \in 1..2 :
+ASysExtendN == On("sysextendn") /\ \E s \in LiveSys : \E d \in (1..2) \ {s} : \E m \in 0..2 :
     syss[s].n + m <= MaxN + 2 /\
     LET sy == syss[s]  ext == ExtendedN([n |-> sy.n, keys |-> sy.keys, col |-> sy.col], m) IN
     Do(Step("sysextendn", [s |-> s, m |-> m, dst |-> d], [ok |-> TRUE]), objs, [syss EXCEPT ![d] = SysOf(ext, sy.symbols, sy.pbc)])
